@@ -330,13 +330,17 @@ pub fn run_batch(lines: &[String]) -> Vec<Obs> {
                     };
                     (obs, v)
                 }
-                None => ("compiled".to_string(), if rt.starts_with("err") { Err(format!("text rejected at run time ({rt}) compiled without an error at its invocation")) } else { Ok(()) }),
+                None => ("compiled".to_string(), if rt.starts_with("err") { Err(format!("text rejected at run time ({rt}) compiled without an error at its invocation{}", lrm_note(&c.text))) } else { Ok(()) }),
             };
             out.push(Obs::with(obs, verdict));
         } else {
             match (&macro_value[k], &compile_err[k]) {
                 (Some(v), _) => {
-                    let mut verdict = if *v == rt { Ok(()) } else { Err(format!("macro value {v} differs from the runtime value {rt}")) };
+                    let mut verdict = if *v == rt {
+                        Ok(())
+                    } else {
+                        Err(format!("macro value {v} differs from the runtime value {rt}{}", if rt.starts_with("err") { lrm_note(&c.text) } else { String::new() }))
+                    };
                     if let Some(t) = &token_text[k] {
                         if strip_ws(t) != strip_ws(&c.text) && verdict.is_ok() {
                             verdict = Err(format!("the macro received {t:?}, which differs from the source text in more than white space"));
@@ -361,6 +365,29 @@ pub fn run(line: &str) -> Obs {
 }
 
 // ------------------------------------------------------------------------------------ generators
+
+/// White space of the Rust tokenizer (Unicode Pattern_White_Space): the tokenizer drops these characters of the source
+/// text, and the macro receives the token printer's text with a plain space or a line break in their place.
+pub const PATTERN_WS: &[char] = &['\t', '\n', '\u{b}', '\u{c}', '\r', ' ', '\u{85}', '\u{200e}', '\u{200f}', '\u{2028}', '\u{2029}'];
+/// ... those of them that are white space to `char::is_whitespace` (Unicode White_Space) as well.  U+200E / U+200F (the
+/// left-to-right / right-to-left marks) are not: see the finding F-C20-lrm in corpus/C20.txt - they are never generated.
+pub const SOURCE_WS: &[char] = &['\t', '\n', '\u{b}', '\u{c}', '\r', ' ', '\u{85}', '\u{2028}', '\u{2029}'];
+
+/// the fixed phrase by which known_findings.json recognises F-C20-lrm
+const LRM_PHRASE: &str = "Pattern_White_Space character that is not White_Space";
+
+/// the source text contains white space of the tokenizer that `char::is_whitespace` does not know
+fn has_lrm(text: &str) -> bool {
+    text.chars().any(|c| PATTERN_WS.contains(&c) && !c.is_whitespace())
+}
+
+fn lrm_note(text: &str) -> String {
+    if has_lrm(text) {
+        format!(" [the source text contains a {LRM_PHRASE} (U+200E / U+200F): the tokenizer drops it, the runtime parser does not]")
+    } else {
+        String::new()
+    }
+}
 
 /// does the text tokenize as Rust?  (no literal starting with 0x / 0b / 0o, no digit directly followed by e/E)
 fn tokenizes(text: &str) -> bool {
@@ -392,7 +419,7 @@ fn tokenizes(text: &str) -> bool {
             }
             // `1.x` is fine, `1..` is a range token: still tokenizes
         }
-        if !(c.is_ascii_alphanumeric() || " \t\n.+-^/*#".contains(c) || c.is_alphabetic()) {
+        if !(c.is_ascii_alphanumeric() || " \t\n.+-^/*#".contains(c) || c.is_alphabetic() || SOURCE_WS.contains(&c)) {
             return false;
         }
     }
@@ -654,6 +681,56 @@ fn generate_hardening(seed: u64, thorough: bool, emit: &mut dyn FnMut(String)) {
         }
         emit_case(emit, 1, t1.trim_start_matches(" +"));
         emit_case(emit, 2, t2.trim_start_matches(" +"));
+    }
+    // ---- (2c) every white-space character of the Rust tokenizer in the SOURCE text of the invocation (raw characters in the
+    //      generated main.rs; the runtime parser gets the same text): between terms, inside a term, around '^' and '/',
+    //      inside a number, leading and trailing; one character throughout, then mixtures and runs.  The macro sees a plain
+    //      space or a line break wherever the source had any of them, so the runtime parser has to ignore every one of them.
+    let slots1: [&str; 9] = [
+        "2x^2@+@3x@-@4", "@2x^2 - x + 1", "2x^2 - x + 1@", "2@x^2 + 3@x - 0.5@x^3", "2x@^@2 - x@^3 + x^@4", "-@x^3 + 1@.5x -@7", "2x^1@0 + 1@2x - 3@.@5",
+        "@-@é@^@2@+@3@é@", "7@", 
+    ];
+    let slots2: [&str; 11] = [
+        "x^2y@-@1/2y^-1@+@4", "@3xy^0.5 - z", "3xy^0.5 - z@", "2@x@y + 3@x^2@y^3", "x@^@2y@^-1 - z^@1/2", "1@/@2x - 3@/4y + 5/@6", "x^1@/@2 + y^-3@/@4",
+        "x^@-@2 + y^-@0.5", "1@2x^1@2 - 0@.@5y^1@.@5", "@-@a@b@^@-@1@/@2@+@1@/@3@", "1/3@",
+    ];
+    let fill = |t: &str, f: &mut dyn FnMut() -> String| -> String {
+        let mut s = String::new();
+        for c in t.chars() {
+            if c == '@' { s.push_str(&f()) } else { s.push(c) }
+        }
+        s
+    };
+    for (parser, slots) in [(1u8, &slots1[..]), (2u8, &slots2[..])] {
+        for &w in SOURCE_WS {
+            for t in slots {
+                emit_case(emit, parser, &fill(t, &mut || w.to_string()));
+            }
+        }
+        // mixtures: each slot gets a run of 0..3 characters drawn from the whole set
+        let n = if thorough { 300 } else { 30 };
+        for i in 0..n {
+            let t = slots[i % slots.len()];
+            let text = fill(t, &mut || (0..rng.below(4)).map(|_| *rng.pick(SOURCE_WS)).collect());
+            emit_case(emit, parser, &text);
+        }
+        // a long text (the printer re-flows it) with unusual white space around every sign
+        for i in 0..(if thorough { 12 } else { 2 }) {
+            let base = loop {
+                let t = if parser == 1 { gen_simple(&mut rng, 300 + 200 * (i % 3)) } else { gen_inter(&mut rng, 300 + 200 * (i % 3)) };
+                if tokenizes(&t) {
+                    break t;
+                }
+            };
+            let mut text = String::new();
+            for c in base.chars() {
+                if (c == '+' || c == ' ') && rng.chance(1, 2) {
+                    text.push(*rng.pick(&['\u{b}', '\u{c}', '\r', '\u{85}', '\u{2028}', '\u{2029}']));
+                }
+                text.push(c);
+            }
+            emit_case(emit, parser, &text);
+        }
     }
     // ---- (3) invalid texts of every error KIND the runtime parsers can produce; each alone and inside a longer correct
     //      polynomial.  Each must be a compile error at its own line (the kind the diagnostic names is recorded in the
